@@ -56,6 +56,10 @@ def handle : Handler := fun op args =>
   | "b58enc", [d] => do some (showB58 (Base58.b2a (← parseHex? d)))
   | "b58dec", [s] => do some (showB58 (Base58.a2b (← parseHex? s)))
   | "b58cenc", [d] => do some (showB58 (Base58.b2aHashed (← parseHex? d)))
+  -- `b58cenc_mut d1 d2`: ONE mutable buffer (bytearray) holding d1 is encoded, overwritten in place with d2, encoded again:
+  -- each answer is that of the bytes the buffer holds at that moment
+  | "b58cenc_mut", [d1, d2] => do
+    some (showB58 (Base58.b2aHashed (← parseHex? d1)) ++ " | " ++ showB58 (Base58.b2aHashed (← parseHex? d2)))
   | "b58cdec", [s] => do some (showB58 (Base58.a2bHashed (← parseHex? s)))
   | "b58cvalid", [s] => do some ("ok " ++ showBool (Base58.isHashedValid (← parseHex? s)))
   | "c11_pb58", [s] => do
